@@ -127,6 +127,36 @@ func (*CopyOnWriteBuffer).AppendByte
   ensures fresh(b.buffer) || (old(b.copied) && arrof(b.buffer) == old(arrof(b.buffer)))
   modifies b.buffer, b.copied, contents(b.buffer)
 
+// ---- trimming: the result is a sub-slice of the argument (never a copy, never a write) ----
+macro suffixOf(r, s) = arrof(r) == arrof(s) && offof(r) >= offof(s) && offof(r) + len(r) == offof(s) + len(s) && len(r) <= len(s)
+macro prefixOf(r, s) = arrof(r) == arrof(s) && offof(r) == offof(s) && len(r) <= len(s) && len(r) >= 0
+func TrimLeft
+  ensures suffixOf(result, source)
+  modifies nothing
+  loop 0 inv 0 <= i && i <= len(source)
+  loop 0 dec len(source) - i
+  loop 1 inv 0 <= j && j <= len(b) && 0 <= i && i < len(source)
+  loop 1 dec len(b) - j
+func TrimRight
+  ensures prefixOf(result, source)
+  modifies nothing
+  loop 0 inv -1 <= i && i < len(source)
+  loop 0 dec i + 1
+  loop 1 inv 0 <= j && j <= len(b) && 0 <= i && i < len(source)
+  loop 1 dec len(b) - j
+func TrimLeftSpace
+  ensures suffixOf(result, source)
+  modifies nothing
+func TrimRightSpace
+  ensures prefixOf(result, source)
+  modifies nothing
+func TrimLeftLength
+  ensures 0 <= result && result <= len(source)
+  modifies nothing
+func TrimRightLength
+  ensures 0 <= result && result <= len(source)
+  modifies nothing
+
 func DoFullUnicodeCaseFolding
   ensures fresh(result) || sameslice(result, v)
   modifies nothing
